@@ -102,6 +102,9 @@ structure Server where
   elapsed : Nat := 0
   timerAcc : Nat := 0
   timeout : Nat := 400
+  /-- Bevy's `Time` has no delta in the first update of an app (`update_with_instant` only
+  records the instant); from the second update on a frame's delta is the time step -/
+  timeStarted : Bool := false
   /-- Schedule detail: does the `reset` system run before the run condition of
   `send_replication` is evaluated in the frame after a stop?  The plugin does not order the two;
   Bevy's topological sort decides, depending on which other systems are present (observed: yes
@@ -359,16 +362,20 @@ def Server.runAll (s : Server) : Server × List (Nat × ClientOut) :=
   ({ s with clients := results.map fun x => (x.1, x.2.1) },
    results.filterMap fun x => x.2.2.map fun o => (x.1, o))
 
+/-- the delta `Time<Virtual>` reports for a frame: nothing in the app's first update, otherwise
+the time step clamped to `max_delta` (250 ms) -/
+def Server.frameMs (s : Server) (ms : Nat) : Nat := if s.timeStarted then min ms 250 else 0
+
 /-- First half of a server frame (`App::update`): `receive_acks`, the tick (if any),
 `buffer_removals`, and — when `ServerTick` changed — `send_replication` up to the point where
 `Mutations::send` splits the collected mutations.  Returns what every authorized client is sent. -/
 def Server.frameBegin (s : Server) (ticked : Bool) (ms : Nat := 10) : Server × Bool × List (Nat × ClientOut) :=
   -- time advances (`Time<Virtual>` clamps a frame's delta to its `max_delta` of 250 ms); the
   -- `on_timer` condition ticks its timer in every frame
-  let ms := min ms 250
+  let ms := s.frameMs ms
   let acc := s.timerAcc + ms
   let fired := decide (acc ≥ s.timeout) && decide (s.timeout > 0)
-  let s := { s with elapsed := s.elapsed + ms, timerAcc := if fired then acc % s.timeout else acc }
+  let s := { s with elapsed := s.elapsed + ms, timerAcc := if fired then acc % s.timeout else acc, timeStarted := true }
   if !s.running then
     -- the run condition `resource_changed::<ServerTick>` is evaluated (and the change consumed)
     -- in every frame; then, once, the `reset` of a just stopped server
